@@ -453,18 +453,21 @@ CHECK_DEADLOCK FALSE
     return p
 
 
-def posix_strings(ctx, maxl, nshards=1):
-    """Mode 'strings': the machine stepped over every string; returns [{s, status, words}]."""
+def posix_strings(ctx, maxl, nshards=1, only=None, minl=0):
+    """Mode 'strings': the machine stepped over every string (of the shards in `only`);
+    returns [{s, status, words}]."""
 
     def one(sh):
-        cfg = posix_cfg(ctx, f"posix_strings_{sh}", "strings", shard=sh, nshards=nshards, minl=0, maxl=maxl)
+        cfg = posix_cfg(ctx, f"posix_strings_{minl}_{maxl}_{sh}", "strings", shard=sh, nshards=nshards, minl=minl,
+                        maxl=maxl)
         return ctx.tlc("PosixWords_Gen", cfg=cfg, workers=1, timeout=3000)
 
-    if nshards == 1:
-        rs = [one(0)]
+    shards = list(range(nshards)) if only is None else list(only)
+    if len(shards) == 1:
+        rs = [one(shards[0])]
     else:
-        with ThreadPoolExecutor(max_workers=min(nshards, 12)) as ex:
-            rs = list(ex.map(one, range(nshards)))
+        with ThreadPoolExecutor(max_workers=min(len(shards), 8)) as ex:
+            rs = list(ex.map(one, shards))
     out = []
     for r in rs:
         out.extend(r.printed())
